@@ -37,6 +37,11 @@ static void run_vmp(const Vals& v, Ctx& c, bool bigshape) {
   int64_t *mat = MAT.as<int64_t>(), *a = A.as<int64_t>();
   int64_t M = ((int64_t)1 << bits) - 1;
   for (uint64_t i = 0; i < nrows * ncols; ++i) pat::fill(mat + i * n, n, (fam + (int)i) % pat::NFAM, M, r.next(), r);
+  // sparse matrices are the realistic case (gadget / key-switching matrices have zero blocks): one entry in six is the zero polynomial,
+  // prepared into a buffer that holds garbage (prefill) -- every block of the prepared matrix must still be written
+  uint64_t zero_entries = 0;
+  for (uint64_t i = 0; i < nrows * ncols; ++i)
+    if (r.below(6) == 0) { memset(mat + i * n, 0, n * 8); ++zero_entries; }
   for (uint64_t i = 0; i < a_size; ++i) pat::fill(a + i * a_sl, n, (fam / 8 + (int)i) % pat::NFAM, M, r.next(), r);
   // per-pair budget (each single product must be inside the C01 budget) -- by construction: bits <= 24 =>
   // |a|_1*|b|_inf <= N*2^48 ... so cap the magnitude for large N instead of rejecting
@@ -127,6 +132,7 @@ static void run_vmp(const Vals& v, Ctx& c, bool bigshape) {
   if (n < 8) c.cls("N<8");
   c.cls(entry == 0 ? "entry:apply_dft" : entry == 1 ? "entry:dft_to_dft" : "entry:both");
   if (bigshape) c.cls("bigshape");
+  if (zero_entries) c.cls("matrix:has-zero-polynomial");
 }
 
 std::vector<Sub> vh_subs() {
